@@ -19,6 +19,7 @@ import (
 	"strconv"
 	"strings"
 	"sync"
+	"time"
 )
 
 // A data socket is used to send non-control data between the client and
@@ -152,6 +153,9 @@ func (socket *ftpPassiveSocket) Close() error {
 	return nil
 }
 
+// passiveAcceptTimeout bounds the wait for the client's data connection.
+var passiveAcceptTimeout = 30 * time.Second
+
 func (socket *ftpPassiveSocket) GoListenAndServe(sessionid string) (err error) {
 	laddr, err := net.ResolveTCPAddr("tcp", net.JoinHostPort("", strconv.Itoa(socket.port)))
 	if err != nil {
@@ -159,12 +163,17 @@ func (socket *ftpPassiveSocket) GoListenAndServe(sessionid string) (err error) {
 		return
 	}
 
-	var listener net.Listener
-	listener, err = net.ListenTCP("tcp", laddr)
+	tcpListener, err := net.ListenTCP("tcp", laddr)
 	if err != nil {
 		log.Debug(sessionid, err.Error())
 		return
 	}
+
+	// a client that never opens the data connection must not keep the
+	// session, which waits for it, and this listener for ever
+	tcpListener.SetDeadline(time.Now().Add(passiveAcceptTimeout))
+
+	var listener net.Listener = tcpListener
 
 	add := listener.Addr()
 	parts := strings.Split(add.String(), ":")
